@@ -184,6 +184,13 @@ pub fn on_get_return(w: &mut MWorld, opi: usize) {
             }
         }
     }
+    if is(w, "C07") && !w.draining {
+        if let Some(v) = c07_on_handout(w, opi) {
+            if w.pending_violation.is_none() {
+                w.pending_violation = Some(v);
+            }
+        }
+    }
     if is(w, "C10") && !w.draining {
         if let Some(v) = c10_get_return(w, opi) {
             if w.pending_violation.is_none() {
@@ -1724,6 +1731,34 @@ pub fn c07_on_create(w: &mut MWorld, ci: usize) {
     } else {
         w.cnt.probe("create_after_resize_within_limit");
     }
+}
+
+/// A get that acquired its slot after the last resize returned must not leave more objects
+/// checked out than the limit in force (whatever it hands out: a new or an idle object).
+pub fn c07_on_handout(w: &mut MWorld, opi: usize) -> Option<Violation> {
+    absorb_site_log(w);
+    let s = w.orc.last_resize_done?;
+    if w.orc.resizes_in_progress > 0 || w.orc.close_invoked || w.orc.max_ambiguous.is_some() {
+        return None;
+    }
+    let op = &w.ops[opi];
+    if op.actor == CONTROLLER || !matches!(op.result, Some(OpRes::GetOk(_))) {
+        return None;
+    }
+    let admitted_after = op.permit_step.map(|p| p > s).unwrap_or(false) && op.exempt_resize != Some(s);
+    if !admitted_after {
+        return None;
+    }
+    let n = w.cur_max_size();
+    let out = w.n_out();
+    if out > n {
+        return c07(
+            "checked_out_over_limit",
+            format!("a get() admitted after resize({n}) returned completed although {} objects were still checked out", out - 1),
+        );
+    }
+    w.cnt.probe("handout_after_resize_within_limit");
+    None
 }
 
 /// A return that was in flight when a get created an object has finished.
